@@ -10,15 +10,25 @@ import core
 from core import Built
 
 PROPERTY = "C08"
-CLASSES = ["c05", "c04", "c06", "c03", "c02", "c01", "c01x", "c01v"]   # format modules providing open_impl/stream_prefix/truth_reader
+CLASSES = ["c05", "c04", "c06", "c03", "c02", "c01", "c01x", "c01v", "c06h", "c03d"]   # format modules providing open_impl/stream_prefix/truth_reader
+# c06h = split Parallels disks (StorageStream over 2..5 storages, HDD(path).open()): storages of a few sectors up to several stream
+#        buffers, boundaries unrelated to the buffer size; every storage boundary gets a directed group of reads that begin inside the
+#        storage in front of it and run across it (readoffset / seek+read / seek+peek+read / seek+readinto, cycling), next to
+#        short reads right behind it
+# c03d = differencing VHDX chains (depth 2..3, opened by path) with partially-present blocks in the top layer and in the layer
+#        below; buffer sizes that are sector multiples but no multiple of eight sectors (512, 1536, 2560, 7680 ...; 4 KiB sectors:
+#        4096, 12288, 20480), so that back-end requests start inside a byte of the sector bitmap; read_sectors(sector, count) at start
+#        sectors that are no multiple of eight
 # c01x = QCOW2 with extended L2 entries whose sub-cluster bitmaps are partially written clusters (gen_qcow2 "holes"), dense maps,
 #        histories directed at the cluster boundaries (short reads next to long reads spanning a boundary)
 # c01v = QCOW2 with internal snapshots, several streams over one file handle (the active image, snapshots[j].open(), a snapshot
 #        opened twice), one interleaved history; the views share host clusters / compressed blobs and hold the same guest
 #        cluster with different content (compressed in several views)
-MODULE = {"c01x": "c01", "c01v": "c01"}
-PER_QUICK = {"c01x": 14, "c01v": 24}
-PER_THOROUGH = {"c01x": 200, "c01v": 300}
+MODULE = {"c01x": "c01", "c01v": "c01", "c06h": "c06", "c03d": "c03"}
+PER_QUICK = {"c01x": 14, "c01v": 24, "c06h": 30, "c03d": 24}
+PER_THOROUGH = {"c01x": 200, "c01v": 300, "c06h": 300, "c03d": 240}
+HDD_ALIGNS = [8192, 512, 1536, 4096, 65536, 8192, 2560, 1 << 20, 8192, 16384]
+VHDX_DIFF_ALIGNS = {512: [1536, 512, 2560, 8192, 7680, 4096, 3584, 65536, 1536, 512, 66048, 1 << 20], 4096: [4096, 12288, 8192, 20480, 65536, 4096]}
 RULE = ("for every stream class: generated image (the class's own generator) × stream buffer size in {512, 1536, 4096, 8192, "
         "65536, 1 MiB} (sector multiples) × a random history of 12..60 operations (quick) drawn from seek SET/CUR/END incl. negative "
         "and past-the-end, read n (0, small, large, past the end, -1), readinto, readall, peek, readoffset, tell and read_sectors "
@@ -28,7 +38,12 @@ RULE = ("for every stream class: generated image (the class's own generator) × 
         "relative to the buffer size), and images with 1..3 internal snapshots read through 2..4 streams over the same file handle "
         "(active image, snapshot views incl. one snapshot opened twice) in one interleaved history with probes of the same guest "
         "cluster through every stream; the model answers each stream's sub-history (snapshot_view_independent / "
-        "active_view_independent: the views do not interact). Non-trivial = model WF and the history contains a seek, a peek and a "
+        "active_view_independent: the views do not interact). Split Parallels disks (c06h: 2..5 storages through HDD(path).open(), storages "
+        "from a few sectors to several stream buffers, buffer sizes 512 .. 1 MiB incl. 1536 / 2560): every storage boundary gets a group of "
+        "reads that begin inside the storage in front of it and run across it, as readoffset / seek+read / seek+peek+read / seek+readinto in "
+        "turn, next to short reads right behind the boundary. Differencing VHDX chains (c03d: depth 2..3 opened by path, partially-present "
+        "blocks with explicit bitmaps in the top layer and the one below): buffer sizes that are no multiple of eight sectors and "
+        "read_sectors at start sectors that are no multiple of eight, counts around the bitmap byte size. Non-trivial = model WF and the history contains a seek, a peek and a "
         "read crossing a buffer boundary; distinct (recipe, history) hash.")
 ASSUMPTIONS = ["dissect.util.stream.AlignedStream is an external dependency: transcribed in Hv/Stream.lean and tied by this correspondence",
                "functools.lru_cache / cached_property are semantically transparent because the underlying file is immutable (C09)"]
@@ -44,7 +59,7 @@ def mod(name):
     return _mods[name]
 
 
-def gen_edge_reads(rng, size, align, points, unit):
+def gen_edge_reads(rng, size, align, points, unit, form=None):
     """reads cut differently around an allocation-unit boundary B: the bytes right after B on their own (short read), as the
     end of a read that starts in the unit before B, and inside one long request spanning B. The start distances are chosen
     relative to the buffer size so that the spanning part is served from the alignment buffer (d < align), by a multi-buffer
@@ -55,18 +70,26 @@ def gen_edge_reads(rng, size, align, points, unit):
     n = d + rng.choice([1, align - 1, align, align + 1, 2 * align + 3, unit, unit + align, 2 * unit + 1])
     n = min(n, 3 << 20)
     short = ["O", B, rng.choice([1, 16, 512, align])]
-    long_ = rng.choice([[["O", B - d, n]], [["s", B - d, 0], ["r", n]], [["s", B - d, 0], ["p", n], ["r", rng.choice([1, d, d + 1])]],
-                        [["s", B - d, 0], ["ri", n]]])
+    forms = [[["O", B - d, n]], [["s", B - d, 0], ["r", n]], [["s", B - d, 0], ["p", n], ["r", rng.choice([1, d, d + 1])]],
+             [["s", B - d, 0], ["ri", n]]]
+    long_ = rng.choice(forms)
+    if form is not None:
+        long_ = forms[form % 4]
     pre = [["O", max(0, B - rng.choice([1, 7, align])), rng.choice([1, 7])]] if rng.random() < 0.5 else []
     order = rng.choice([0, 1, 2])
     qs += (pre + [short] + long_) if order == 0 else (pre + long_ + [short]) if order == 1 else ([short] + pre + long_ + [short])
     return [q for q in qs if q[1] <= size + 1 or q[0] not in ("O", "s")]
 
 
-def gen_history(rng, size, align, ss, has_sectors, n, points=None, unit=None):
+def gen_history(rng, size, align, ss, has_sectors, n, points=None, unit=None, every_point=None, extra=()):
+    """every_point = k: one directed group per point (at most 12), the long read of the j-th group in form (k + j) % 4;
+    extra: further directed operations (lists of ops kept together) placed between the random ones"""
     qs = []
     maxr = min(size + 10, 300000)
     groups = [gen_edge_reads(rng, size, align, points, unit) for _ in range(rng.choice([3, 5, 8]))] if points else []
+    if points and every_point is not None:
+        groups += [gen_edge_reads(rng, size, align, [B], unit, form=every_point + j) for j, B in enumerate(points[:12])]
+    groups += [list(g) for g in extra]
     # "interrupted sequential read": read one buffer, go somewhere else for a small read, come back to exactly where the
     # first read stopped (state kept across calls — remembered file positions, shared handles — shows up here)
     for _ in range(rng.choice([0, 2, 4, 6])):
@@ -193,6 +216,32 @@ def generate(seed, tier):
                     streams = streams[1:]                                  # snapshot views only
                 case["streams"] = streams
                 case["queries"] = gen_view_history(crng, t, streams, case["align"], max(6, draw_nops() // len(streams)))
+                cases.append(case)
+                continue
+            if cls == "c06h":
+                import gen_hdd
+                r = gen_hdd.gen_recipe(crng, tier, max_depth=2 if i % 6 == 5 else 1, nst=[2, 3, 4, 5, 2, 3][i % 6], disorder=0.7, mult=[1, 1, 4, 16, 32][i % 5])
+                case = {"id": f"{cls}-{i}", "cls": cls, "fam": "hdd", "recipe": r, "align": HDD_ALIGNS[i % len(HDD_ALIGNS)]}
+                size, _, _ = m.truth_reader(case)
+                bounds = sorted(st["start"] * 512 for st in r["storages"] if st["start"] > 0)
+                unit = min((st["end"] - st["start"]) * 512 for st in r["storages"])
+                case["queries"] = gen_history(crng, size, case["align"], 512, False, draw_nops() // 2, points=bounds, unit=unit, every_point=i)
+                cases.append(case)
+                continue
+            if cls == "c03d":
+                gv = m.gen_vhdx
+                ss = 4096 if i % 4 == 3 else 512
+                r = gv.gen_diff_recipe(crng, tier, depth=2 + (i % 3 == 1), ss=ss, shape=i)
+                al = VHDX_DIFF_ALIGNS[ss]
+                case = {"id": f"{cls}-{i}", "cls": cls, "recipe": r, "align": al[(i // 4 if ss == 4096 else i - i // 4) % len(al)]}
+                size, _, _ = m.truth_reader(case)
+                top = r["layers"][-1]
+                pts = sorted({b * l["bs"] for l in r["layers"] for b, st in enumerate(l["blocks"]) if st == 7 and 0 < b * l["bs"] < size} |
+                             {b * l["bs"] + ss * sum(k for _, k in l["bitmaps"][str(b)][:j]) for l in r["layers"][1:] for b, st in enumerate(l["blocks"]) if st == 7
+                              for j in (1, 2, 5) if 0 < b * l["bs"] + ss * sum(k for _, k in l["bitmaps"][str(b)][:j]) < size})
+                sq = gv.gen_sector_queries(crng, r, 10)
+                case["queries"] = gen_history(crng, size, case["align"], ss, True, draw_nops() // 2, points=pts or None, unit=8 * ss,
+                                              extra=[sq[j:j + 2] for j in range(0, len(sq), 2)])
                 cases.append(case)
                 continue
             if cls == "c03":
